@@ -126,6 +126,11 @@ def run(ctx):
   model_check(ctx)
   from pv import tim
   tim.run(ctx, 150 if ctx.quick else 3000)       # stateful trace validation of util.py itself
+  reg = tim.registry_records()
+  c_, fails_, tr_ = tlc.validate_trace('ChecksTrace', 'ChecksTrace.cfg', reg, 'C16reg')
+  ctx.validated += c_
+  ctx.replayed += len(reg)
+  ctx.trace_failures(fails_, {x['sid']: x for x in reg}, lambda rec, f: {'kind': rec['kind'], 'registry': rec['obs']})
   replay_and_validate(ctx, plan(ctx), 'C16')
 
 
